@@ -476,6 +476,56 @@ def _reachable(spec):
   return len(seen_n) == len(spec['nodes']) and len(seen_v) == len(spec['vars'])
 
 
+def run_clone_values(ctx, i, rng):
+  """clone on Variables whose VALUE is a container: the clone's value has the same container types (tuple, namedtuple, OrderedDict,
+  list, dict) and shares no numpy buffer with the original, at any nesting depth."""
+  import collections
+  import jax.numpy as jnp
+  from flax import nnx
+  kind = ['tuple_of_np', 'ordered_dict', 'list_of_dict', 'namedtuple', 'nested'][i % 5]
+  with ctx.case('clone_values', i, dict(value=kind), nontrivial=True):
+    NT = collections.namedtuple('NT', ['w', 'b'])
+
+    def mkval():
+      a, b = np.arange(3.0) + i, np.ones((2,)) * i
+      return {'tuple_of_np': (a, b), 'ordered_dict': collections.OrderedDict([('z', a), ('a', b)]), 'list_of_dict': [{'k': a}, b],
+              'namedtuple': NT(a, b), 'nested': {'t': (a, [b, {'q': a.copy()}])}}[kind]
+
+    class Box(nnx.Module):
+      pass
+
+    m = Box()
+    m.v = nnx.Variable(mkval())
+    m.p = nnx.Param(jnp.ones(2))
+    c = nnx.clone(m)
+    ctx.op('clone(container-valued Variable)')
+
+    def shape_of(x):
+      if isinstance(x, dict):
+        return (type(x).__name__, tuple((k, shape_of(v)) for k, v in x.items()))
+      if isinstance(x, (list, tuple)):
+        return (type(x).__name__, tuple(shape_of(v) for v in x))
+      return ('leaf', np.asarray(x).tolist())
+
+    ctx.check(shape_of(c.v.value) == shape_of(mkval()), 'clone:not_isomorphic:container_value', lambda: dict(kind=kind, got=repr(shape_of(c.v.value))[:300]))
+
+    def bump(x):
+      n = 0
+      if isinstance(x, dict):
+        for v in x.values():
+          n += bump(v)
+      elif isinstance(x, (list, tuple)):
+        for v in x:
+          n += bump(v)
+      elif isinstance(x, np.ndarray):
+        x += 1000.0
+        n += 1
+      return n
+
+    n = bump(c.v.value)
+    ctx.check(n >= 1 and shape_of(m.v.value) == shape_of(mkval()), 'clone:shares_numpy_buffer:container_value', lambda: dict(kind=kind, original_now=repr(shape_of(m.v.value))[:300]))
+
+
 def _get_twice(variable, value):
   return value * 2.0
 
@@ -559,6 +609,8 @@ def run_hooked(ctx, i, rng):
 def run(ctx):
   from vf.gen import nnx_graph as G
   install_hooks(ctx)
+  for i in ctx.indices(10, 'clone_values'):
+    run_clone_values(ctx, i, ctx.rng('clone_values', i))
   for i in ctx.indices(16, 'hooked'):
     run_hooked(ctx, i, ctx.rng('hooked', i))
   n = 1500 if ctx.tier == 'quick' else 9000
